@@ -169,6 +169,9 @@ type simCall struct {
 	ctx  context.Context
 	gate chan struct{}
 	err  error // set by the driver before release: fail the call
+	// was the caller's context already done when the call was made?
+	deadAtPark bool
+	parkedAt   time.Time
 }
 
 type simGate struct {
@@ -180,7 +183,7 @@ type simGate struct {
 
 func (g *simGate) park(ctx context.Context, kind string, p peer.ID, req *pb.Message) *simCall {
 	g.mu.Lock()
-	c := &simCall{seq: g.seq, kind: kind, p: p, req: req, ctx: ctx, gate: make(chan struct{})}
+	c := &simCall{seq: g.seq, kind: kind, p: p, req: req, ctx: ctx, gate: make(chan struct{}), deadAtPark: ctx.Err() != nil, parkedAt: time.Now()}
 	g.seq++
 	g.pending = append(g.pending, c)
 	g.log = append(g.log, c)
